@@ -143,7 +143,11 @@ def explore(ctx):
     # parse regex with named groups: a subset on which Python re and the regex crate agree
     rx_cases = [(r'(?P<a>\d+)-(?P<b>[a-z]+)', ['12-ab', 'x 7-q y 8-z', 'nope', '3-', '-ab']),
                 (r'id=(?P<id>\w+)', ['id=7 id=8', 'ID=9', 'id=']),
-                (r'(?P<k>[A-Z]+):(?P<v>\S*)', ['KEY:val', 'a:b', 'X: y', 'AB:1 CD:2'])]
+                (r'(?P<k>[A-Z]+):(?P<v>\S*)', ['KEY:val', 'a:b', 'X: y', 'AB:1 CD:2']),
+                # optional / alternative named groups that do not take part in the match: None in their own position
+                (r'(?:user=(?P<user>\w+) )?status=(?P<status>\d+)(?: ms=(?P<ms>\d+))?', ['user=bob status=200 ms=5', 'status=404 ms=7', 'status=500', 'user=al status=1', 'nothing']),
+                (r'(?P<a>x\d)|(?P<b>y\d)', ['x1', 'y2', 'z3 y4']),
+                (r'(?P<first>[a-z]+)?-(?P<second>[a-z]+)?-(?P<third>[a-z]+)?', ['a-b-c', '--c', 'a--', '-b-'])]
     nrx = 0
     for rx, lines in rx_cases:
         q = '* | parse regex "%s"' % rx.replace('\\', '\\\\')
@@ -153,7 +157,7 @@ def explore(ctx):
         for l in lines:
             m = re.search(rx, l.strip())
             if m:
-                want.append({k: pyref.from_string(v) for k, v in m.groupdict().items()})
+                want.append({k: (None if v is None else pyref.from_string(v)) for k, v in m.groupdict().items()})
         nrx += len(lines)
         if got is None or len(got) != len(want) or any(not aglib.same(g, w) for g, w in zip(got, want)):
             failures.append({'kind': 'spec', 'what': 'parse regex %s: got %r expected %r' % (rx, got, want), 'payload': {'query': q, 'input_lines': lines}})
